@@ -385,6 +385,33 @@ theorem literal_blocks_leave_table_alone (d : Dec) (first : Bool) (fs : List Ent
   | nil => rfl
   | cons e rest ih => simp [decBlock, decRep, ih false]
 
+/-! ### Header blocks without fields -/
+
+/-- **An empty field list is still a header block.** A block that consists of dynamic table size
+updates only decodes to no field at all (`decodeFull` succeeds with `[]`), the re-encoded block is
+empty, and `relay.header` still enqueues exactly one frame for it whose one fragment is empty: a
+HEADERS frame with an empty payload that carries the block's END_STREAM (and priority) — for every
+relay state, every legal MAX_FRAME_SIZE, with or without priority. Nothing is written in front of it
+and the encoder's pending size updates stay pending (`encodeEmpty`). -/
+theorem empty_field_list_block_is_forwarded (r : Relay) (sid : Nat) (es : Bool) (prio : Prio) :
+    acceptedOf r (.header sid [] es prio []) = [.headers sid es prio r.nextStamp [] [[]]] ∧
+    (∀ (d : Dec) (n : Nat), n ≤ d.allowed →
+        d.decodeFull [.sizeUpdate n] = some ({ d with tab := d.tab.setMax n }, [])) ∧
+    (∀ (s : Sys) (dir : Dir), (s.encodeFull dir true).hp dir = s.hp dir ∧
+        (s.encodeFull dir true).flushLog dir = s.flushLog dir ++ [[]]) := by
+  refine ⟨?_, ?_, ?_⟩
+  · simp [acceptedOf, splitIntoChunks, chunkRest]
+  · intro d n hn
+    have : ¬ n > d.allowed := by omega
+    simp [Dec.decodeFull, decBlock, decRep, this]
+  · intro s dir
+    cases dir <;> exact ⟨rfl, rfl⟩
+
+/-- … through the whole relay: the frame is emitted at once when the stream window is not negative
+(a header frame has flow-control size 0). -/
+example : (rstep {} (.header 1 [] true Prio.zero [])).emitted = [.headers 1 true Prio.zero 0 [] [[]]] := by
+  decide
+
 /-! ### Facts regenerated from `/repo` on every run (`go/cmd/vextract/facts_c08.go`) -/
 
 /-- `newRelay` / `updateTableSize` are what `Hp` and `Hp.updateTableSize` transcribe: tables start
@@ -399,6 +426,14 @@ theorem facts_hpack_table_sizes :
     Generated.H2Relay.encoderLimitIsMaxUint32 = true ∧ ({} : Hp).enc.limit = 4294967295 ∧
     Generated.H2Relay.updateTableSizeSetsEncoder = true ∧
     Generated.H2Relay.updateTableSizeTouchesDecoder = false := by
+  decide
+
+/-- `splitIntoChunks` produces its first chunk unconditionally (outside any loop: also for an empty
+block), and `queuedHeaderFrame.send` / `queuedPushPromiseFrame.send` write the HEADERS /
+PUSH_PROMISE frame unconditionally — as `splitIntoChunks` (`data.take firstMax :: …`) and
+`QFrame.wireMax` have it. -/
+theorem facts_first_chunk_unconditional :
+    Generated.H2Relay.firstChunkUnconditional = true ∧ Generated.H2Relay.headersFrameWrittenUnconditionally = true := by
   decide
 
 end Martian.Props.C08
